@@ -316,6 +316,8 @@ def build(tier):
     targets += c10_predict_targets()
     import linear_spec
     targets += linear_spec.targets()
+    import predict_spec
+    targets += predict_spec.targets(tier)
     return {
         'targets': targets, 'vcs': [],
         'decided': ['early-stopping monitor transition = specification, for every observation and prior state; constructor (round 0, value +max, given snapshot) and round() / value() / values() accessors',
